@@ -17,7 +17,7 @@ def pod_of(clsname):
         return 'hi'
     if s.endswith('Position'):
         return 'Position'
-    if s.startswith('std::complex<') or s.endswith('impedance_t') or s in ('fftwf_complex', 'vfps::fft::complex'):
+    if s.startswith('std::complex<') or s.endswith('impedance_t') or s in ('fftwf_complex', 'vfps::fft::complex', 'fft::complex', 'fftw_complex'):
         return 'complex'
     if s.startswith('std::array<float, 2>') or s.startswith('std::array<vfps::meshaxis_t, 2>'):
         return 'arr2'
